@@ -347,6 +347,46 @@ def m_copy_from_slice(E, st, fr, bi, callee, args, dest_ty):
     return ret1(UNIT, st)
 
 
+def mslice_write(E, st, dst, src):
+    """write sequence `src` (same length as the window) through the mutable window `dst` into its parent"""
+    parent = as_seq(E, st, dst.d["parent"])
+    lo, n = st.const(dst.d["lo"]), st.const(src.len)
+    pn = st.const(parent.len)
+    phead = parent.head
+    if phead is None and pn is not None and pn <= 64:
+        phead = {i: parent.elem for i in range(pn)}        # e.g. `[0u8; 16]`: every position holds the repeated element
+    if lo is not None and n is not None and phead is not None and src.head and len(src.head) == n:
+        h = dict(phead)
+        for i in range(n):
+            h[lo + i] = src.head[i]
+        elem = None
+        for v in h.values():
+            elem = v if elem is None else E.join_vals(st, elem, v)
+        new = Sq(elem if (pn is not None and len(h) == pn) else E.join_vals(st, E._flat_elem(st, parent), E._flat_elem(st, src)), parent.len, h, None)
+    else:
+        new = Sq(E.join_vals(st, E._flat_elem(st, parent), E._flat_elem(st, src)), parent.len, None, None)
+    write_through(E, st, dst.d["parent"], new)
+
+
+def m_split_at_mut(E, st, fr, bi, callee, args, dest_ty):
+    """<[T]>::split_at_mut(mid) -> two mutable windows into the same parent (only whole-window writes are modelled)"""
+    p = args[0]
+    while type(p) is Pt and p.key is not None and type(E.load(st, p.key, p.proj)) is Pt:
+        p = E.load(st, p.key, p.proj)
+    if type(p) is Md and p.kind == "mslice":
+        return None
+    s = as_seq(E, st, p)
+    mid = args[1]
+    ok = le_proved(E, st, mid, s.len)
+    obligation(E, fr, bi, "SliceRange", ok, f"split_at_mut({st.itv[mid.vid]}) of len {st.itv[s.len.vid]}", "split_at_mut mid <= len")
+    if not ok:
+        E.assume_cmp(st, "Le", mid.vid, s.len.vid)
+    usz = E.ctx.usize_ty()
+    rest = E.binop(st, "Sub", s.len, mid, usz, False)
+    par = Pt(p.key, p.proj, True)
+    return ret1(Ag((Md("mslice", {"parent": par, "lo": usize(E, st, 0), "len": mid}), Md("mslice", {"parent": par, "lo": mid, "len": rest}))), st)
+
+
 def m_split_at(E, st, fr, bi, callee, args, dest_ty):
     """<[T]>::split_at(mid) -> (&s[..mid], &s[mid..]) as two immutable views; panics when mid > len"""
     p = args[0]
@@ -478,6 +518,24 @@ def m_slice_chunks(E, st, fr, bi, callee, args, dest_ty):
         obligation(E, fr, bi, "panic", False, "chunk size may be zero", "chunks")
     inner = Md("iter", {"k": "slice", "src": p, "pos": usize(E, st, 0), "end": s.len, "mut": False, "byref": True})
     return ret1(Md("iter", {"k": "chunks", "inner": inner, "size": args[1]}), st)
+
+
+def m_slice_chunks_mut(E, st, fr, bi, callee, args, dest_ty):
+    """<[T]>::chunks_mut(size) / chunks_exact_mut(size) on a slice of constant length: mutable windows, in order"""
+    p = args[0]
+    while type(p) is Pt and p.key is not None and type(E.load(st, p.key, p.proj)) is Pt:
+        p = E.load(st, p.key, p.proj)
+    if type(p) is not Pt or p.key is None:
+        return None
+    s = as_seq(E, st, p)
+    size, n = st.const(args[1]), st.const(s.len)
+    if size is None or size < 1 or n is None:
+        obligation(E, fr, bi, "panic", st.lo(args[1]) >= 1, "chunk size may be zero", "chunks_mut")
+        return None
+    exact = "chunks_exact_mut" in callee.name
+    cnt = n // size if exact else -(-n // size)
+    return ret1(Md("iter", {"k": "vchunks", "src": p, "pos": usize(E, st, 0), "end": usize(E, st, cnt), "size": size,
+                            "mparent": Pt(p.key, p.proj, True), "n": n}), st)
 
 
 def m_slice_chunks_exact(E, st, fr, bi, callee, args, dest_ty):
@@ -733,6 +791,13 @@ def it_next(E, st, fr, bi, it):
             src = as_seq(E, s2, it.d["src"])
             size = it.d["size"]
             c = s2.const(idx)
+            if "mparent" in it.d:
+                # chunks_mut / chunks_exact_mut: a mutable window into the parent (whole-window writes are modelled)
+                n_ = it.d["n"]
+                if c is None:
+                    raise Unsupported("chunks_mut at a symbolic position")
+                outs.append((Md("mslice", {"parent": it.d["mparent"], "lo": usize(E, s2, c * size), "len": usize(E, s2, min(size, n_ - c * size))}), Md("iter", d), s2))
+                continue
             head = None
             if src.head and c is not None:
                 head = {k_ - c * size: v for k_, v in src.head.items() if c * size <= k_ < (c + 1) * size} or None
@@ -1081,6 +1146,9 @@ def m_iter_adapt(kind):
         if kind == "filter":
             ftys = fn_generic_types(callee)
             return ret1(Md("iter", {"k": "filter", "inner": it, "f": args[1], "fty": ftys[-1]}), st)
+        if kind == "take_while":
+            ftys = fn_generic_types(callee)
+            return ret1(Md("iter", {"k": "take_while", "inner": it, "f": args[1], "fty": ftys[-1]}), st)
         if kind == "chunks":
             if it.d["k"] not in ("bits", "slice", "range"):
                 raise Unsupported("chunks over " + it.d["k"])
@@ -1758,6 +1826,41 @@ def m_iter_count(E, st, fr, bi, callee, args, dest_ty):
                 lo += rl
                 hi += rh
         return ret1(E.ctx.mk_int(s, lo, hi, E.ctx.usize_ty()), s)
+    if it.d["k"] == "take_while":
+        # length of the longest prefix on which the predicate holds: at least the leading items where it certainly holds, at
+        # most the items before the first one where it certainly fails
+        inner = it.d["inner"]
+        n = it_len(E, st, inner)
+        c = st.const(n)
+        if c is None or c > 64:
+            return ret1(E.ctx.mk_int(st, 0, st.hi(n), E.ctx.usize_ty()), st)
+        lo = hi = 0
+        lo_open = True
+        cur, s = inner, st
+        with pinned(E.ctx, it, n):
+            for _ in range(c):
+                with pinned(E.ctx, cur):
+                    outs = [o for o in it_next(E, s, fr, bi, cur) if o[0] is not None]
+                if len(outs) != 1:
+                    raise Unsupported("take_while.count over a non-deterministic iterator")
+                item, cur, s = outs[0]
+                key = ("h", "filter_item", fr.id, bi)
+                s.store[key] = item
+                with pinned(E.ctx, cur):
+                    rs = call_closure(E, s, fr, bi, it.d["f"], it.d["fty"], [Pt(key)])
+                if len(rs) != 1 or type(rs[0][0]) is not I:
+                    raise Unsupported("take_while predicate")
+                r, s = rs[0]
+                E.ctx.emit("filter_pred", frame=fr, bb=bi, item=item, result=r, st=s)
+                rl, rh = s.itv[r.vid]
+                if rh == 0:
+                    break
+                hi += 1
+                if rl == 1 and lo_open:
+                    lo += 1
+                else:
+                    lo_open = False
+        return ret1(E.ctx.mk_int(s, lo, hi, E.ctx.usize_ty()), s)
     return ret1(it_len(E, st, it), st)
 
 
@@ -2043,8 +2146,17 @@ def m_option_eq(E, st, fr, bi, callee, args, dest_ty):
         k = next(iter(ka))
         if not a.vs[k]:
             r = True
-        elif len(a.vs[k]) == 1 and type(a.vs[k][0]) is I and type(b.vs[k][0]) is I:
-            r = E.decide_cmp(st, "Eq", a.vs[k][0], b.vs[k][0])
+        elif len(a.vs[k]) == 1:
+            x, y = a.vs[k][0], b.vs[k][0]
+            try:
+                if type(x) is Pt:
+                    x = deref2(E, st, x)          # Option<&T>: references compare by value
+                if type(y) is Pt:
+                    y = deref2(E, st, y)
+            except (Unsupported, Diverge):
+                x = y = None
+            if type(x) is I and type(y) is I:
+                r = E.decide_cmp(st, "Eq", x, y)
     if r is not None and ne:
         r = not r
     return ret1(E.mkbool(st, None if r is None else int(r)), st)
@@ -2245,11 +2357,18 @@ def m_rng_from_seed(E, st, fr, bi, callee, args, dest_ty):
 def m_fill_bytes(E, st, fr, bi, callee, args, dest_ty):
     rng = deref2(E, st, args[0])
     buf = args[1]
-    s = as_seq(E, st, buf)
     u8 = E.ctx.ty_by_str("u8")
     origin = rng.d.get("origin") if type(rng) is Md else None
-    E.ctx.emit("entropy", frame=fr, bb=bi, rng=rng, buf=buf, seq=s, st=st, what="fill_bytes")
     lab = frozenset({("entropy", origin, rng.d.get("site") if type(rng) is Md else None, (fr.inst.name, bi))})
+    if type(buf) is Md and buf.kind == "mslice":
+        # a mutable window (`&mut r[..20]`, one half of split_at_mut): the window's positions of the parent become draws
+        n = st.const(buf.d["len"])
+        src = Sq(E.ctx.top_int(st, u8, taint=lab), buf.d["len"], {i: E.ctx.top_int(st, u8, taint=lab) for i in range(n)} if n is not None and n <= 64 else None, None)
+        E.ctx.emit("entropy", frame=fr, bb=bi, rng=rng, buf=buf, seq=src, st=st, what="fill_bytes")
+        mslice_write(E, st, buf, src)
+        return ret1(UNIT, st)
+    s = as_seq(E, st, buf)
+    E.ctx.emit("entropy", frame=fr, bb=bi, rng=rng, buf=buf, seq=s, st=st, what="fill_bytes")
     new = Sq(E.ctx.top_int(st, u8, taint=lab), s.len, None, None)
     p = buf
     while type(p) is Pt and p.key is not None and type(E.load(st, p.key, p.proj)) is Pt:
@@ -2283,7 +2402,8 @@ def m_shake_update(E, st, fr, bi, callee, args, dest_ty):
 
 def m_shake_finalize(E, st, fr, bi, callee, args, dest_ty):
     h = args[0]
-    return ret1(Md("xof", {"absorbed": h.d.get("absorbed") if type(h) is Md else None, "labels": h.d.get("labels", frozenset()) if type(h) is Md else frozenset()}), st)
+    return ret1(Md("xof", {"absorbed": h.d.get("absorbed") if type(h) is Md else None, "labels": h.d.get("labels", frozenset()) if type(h) is Md else frozenset(),
+                           "pos": usize(E, st, 0)}), st)
 
 
 def m_xof_read(E, st, fr, bi, callee, args, dest_ty):
@@ -2296,11 +2416,29 @@ def m_xof_read(E, st, fr, bi, callee, args, dest_ty):
     rd = deref2(E, st, args[0])
     lab = (rd.d.get("labels") or EMPTY) if type(rd) is Md else EMPTY
     lab = frozenset(("H", l) for l in lab)      # output of the hash of the labelled inputs
+    # position in the output stream (bytes squeezed so far): rules may pin stream bytes by absolute position
+    pos = rd.d.get("pos") if type(rd) is Md else None
+    pc = st.const(pos) if type(pos) is I else None
+    stream = E.ctx.hooks.get("xof_stream")
+
+    def byte(i):
+        if hook:
+            return E.ctx.mk_int(st, *hook(i), u8, taint=lab)
+        if stream and pc is not None:
+            return E.ctx.mk_int(st, *stream(pc + i), u8, taint=lab)
+        return E.ctx.top_int(st, u8, taint=lab)
     if n is not None and n <= 64:
-        head = {i: (E.ctx.mk_int(st, *hook(i), u8, taint=lab) if hook else E.ctx.top_int(st, u8, taint=lab)) for i in range(n)}
+        head = {i: byte(i) for i in range(n)}
         new = Sq(E.ctx.top_int(st, u8, taint=lab), s.len, head, None)
     else:
         new = Sq(E.ctx.top_int(st, u8, taint=lab), s.len, None, None)
+    if type(pos) is I and type(args[0]) is Pt and args[0].key is not None:
+        d = dict(rd.d)
+        d["pos"] = E.binop(st, "Add", pos, s.len, E.ctx.usize_ty(), False)
+        try:
+            write_through(E, st, args[0], Md("xof", d))
+        except Unsupported:
+            pass
     p = buf
     while type(p) is Pt and p.key is not None and type(E.load(st, p.key, p.proj)) is Pt:
         p = E.load(st, p.key, p.proj)
@@ -2409,8 +2547,10 @@ def build(ctx):
     A(r"^<bit_vec::Iter<.*> as std::iter::Iterator>::next$", m_iter_next)
     A(r"^core::slice::<impl \[.*\]>::chunks$", m_slice_chunks)
     A(r"^(core|std)::slice::<impl \[.*\]>::split_at$", m_split_at)
+    A(r"^(core|std)::slice::<impl \[.*\]>::split_at_mut$", m_split_at_mut)
     A(r"^(core|std)::slice::<impl \[.*\]>::copy_from_slice$", m_copy_from_slice)
     A(r"^(core|std)::slice::<impl \[.*\]>::chunks_exact$", m_slice_chunks_exact)
+    A(r"^(core|std)::slice::<impl \[.*\]>::(chunks_mut|chunks_exact_mut)$", m_slice_chunks_mut)
     for _k in ("first", "last", "split_first", "split_last"):
         A(rf"^(core|std)::slice::<impl \[.*\]>::{_k}$", m_slice_ends(_k))
     A(r"^<.* as itertools::Itertools>::chunks$", m_iter_adapt("chunks"))
@@ -2422,7 +2562,7 @@ def build(ctx):
     A(r"^<.* as std::iter::Iterator>::position::<", m_iter_position)
     A(r"^std::iter::Iterator::position::<", m_iter_position)
     A(r"^(core|std)::array::iter::<impl std::iter::IntoIterator for \[.*\]>::into_iter$", m_vec_into_iter)
-    for k in ("map", "copied", "cloned", "enumerate", "zip", "skip", "take", "chain", "rev", "filter", "step_by"):
+    for k in ("map", "copied", "cloned", "enumerate", "zip", "skip", "take", "chain", "rev", "filter", "take_while", "step_by"):
         A(r"^<.* as std::iter::Iterator>::" + k + r"(::<.*>)?$", m_iter_adapt(k))
         A(r"^std::iter::Iterator::" + k + r"(::<.*>)?$", m_iter_adapt(k))
     A(r"^<.* as std::iter::Iterator>::sum::<", m_iter_sum)
@@ -2498,7 +2638,7 @@ def build(ctx):
     A(r"^std::boxed::Box::<\[.*\]>::new_uninit$", m_box_new_uninit)
     A(r"^std::boxed::Box::<.*>::new$", m_box_new)
     A(r"^<std::option::Option<.*> as std::ops::FromResidual<std::option::Option<std::convert::Infallible>>>::from_residual$", m_option_from_residual)
-    A(r"^<std::option::Option<(bool|[iu]\d+|usize|isize)> as std::cmp::PartialEq>::(eq|ne)$", m_option_eq)
+    A(r"^<std::option::Option<&?(bool|[iu]\d+|usize|isize)> as std::cmp::PartialEq>::(eq|ne)$", m_option_eq)
     A(r"^std::boxed::box_assume_init_into_vec_unsafe::<", m_box_into_vec)
     A(r"^(core|std)::array::<impl \[.*\]>::map::<", m_array_map)
     A(r"^<.* as (core|std)::array::SpecArrayClone>::clone::<", m_array_clone)
